@@ -1,4 +1,7 @@
-(* Proofs/TicksLogNice2.v — C17, Nice on Log scales with an end LEFT IN PLACE by the D10 repair. *)
+(* Proofs/TicksLogNice2.v — C17, Nice on Log scales with an end LEFT IN PLACE by the D10 repair:
+   the exact model is NOT idempotent where the re-taken three-valued slack decision of such an end is
+   undecided (witness below; the Go code is idempotent on it); where it is decided, Nice is
+   idempotent and the first / last major tick is the power the end is within the slack of. *)
 From Coq Require Import Lqa Lia ZArith QArith Qround Qpower Sorted.
 From MM Require Import Base.Num Base.GBLemmas Model.Ticks Proofs.Ticks Proofs.TicksLinear Proofs.TicksLog
   Proofs.TicksLogExp Proofs.TicksNice Proofs.TicksLogNice.
@@ -196,10 +199,10 @@ Proof. intros Hb. rewrite log_exps_in_hi, floor_log_pow, ceil_log_pow by exact H
    and the new decision is not undecided *)
 Lemma out_lo_keep b emin emax c : 2 <= b -> (0 < emin)%Q -> (emin < emax)%Q -> (emax <= c)%Q ->
   near emin (qpow b (ceil_log b emin)) (emax / emin) (log_mu emin emax) = N_inside ->
-  le_amb (log_exps b emin c) = false ->
+  near emin (qpow b (ceil_log b emin)) (c / emin) (log_mu emin c) <> N_border ->
   near emin (qpow b (ceil_log b emin)) (c / emin) (log_mu emin c) = N_inside.
 Proof.
-  intros Hb P Lt Lc Hin Amb. destruct (log_exps_amb_false b emin c Amb) as (_ & _ & N3 & _).
+  intros Hb P Lt Lc Hin N3.
   destruct (ceil_log_spec b emin Hb P) as [_ U].
   pose proof (near_inside_mono emin (qpow b (ceil_log b emin)) (emax / emin) (log_mu emin emax) (c / emin) (log_mu emin c)
     P U (q_div_pos emax emin ltac:(lra) P) (q_div_le_mono emin emin emax c P ltac:(lra) ltac:(lra) Lc)
@@ -208,10 +211,10 @@ Proof.
 Qed.
 Lemma out_hi_keep b emin emax a : 2 <= b -> (0 < a)%Q -> (a <= emin)%Q -> (emin < emax)%Q ->
   near (qpow b (floor_log b emax)) emax (emax / emin) (log_mu emin emax) = N_inside ->
-  le_amb (log_exps b a emax) = false ->
+  near (qpow b (floor_log b emax)) emax (emax / a) (log_mu a emax) <> N_border ->
   near (qpow b (floor_log b emax)) emax (emax / a) (log_mu a emax) = N_inside.
 Proof.
-  intros Hb P La Lt Hin Amb. destruct (log_exps_amb_false b a emax Amb) as (_ & _ & _ & N4).
+  intros Hb P La Lt Hin N4.
   destruct (floor_log_spec b emax Hb ltac:(lra)) as [L _].
   pose proof (near_inside_mono (qpow b (floor_log b emax)) emax (emax / emin) (log_mu emin emax) (emax / a) (log_mu a emax)
     (qpow_pos b _ ltac:(lia)) L (q_div_pos emax emin ltac:(lra) ltac:(lra)) (q_div_le_mono a emin emax emax P La ltac:(lra) ltac:(lra))
@@ -222,7 +225,7 @@ Qed.
 (* ---------- Nice twice, with ends that may have been left in place ---------- *)
 (* [mvlo]/[mvhi]: did the first Nice move the lower / upper end (log.go:233, 236)?  An end that was
    left in place must have been within the slack of the power next to it (decision N_inside: the
-   D10 situation), and no slack decision of the niced domain may be undecided. *)
+   D10 situation), and that decision re-taken for the niced domain must not be undecided. *)
 Lemma log_nice_core b emin emax o l (mvlo mvhi : bool) a c : 2 <= b -> (0 < emin)%Q -> (emin < emax)%Q ->
   let e := log_exps b emin emax in
   le_out_lo e < le_out_hi e -> log_count e true 0 <= MAXINT -> o_max o < MAXINT ->
@@ -235,13 +238,14 @@ Lemma log_nice_core b emin emax o l (mvlo mvhi : bool) a c : 2 <= b -> (0 < emin
   a = (if mvlo then nmn else emin) -> c = (if mvhi then nmx else emax) ->
   (mvlo = false -> near emin (qpow b (ceil_log b emin)) (emax / emin) (log_mu emin emax) = N_inside) ->
   (mvhi = false -> near (qpow b (floor_log b emax)) emax (emax / emin) (log_mu emin emax) = N_inside) ->
-  le_amb (log_exps b a c) = false ->
+  (mvlo = false -> near emin (qpow b (ceil_log b emin)) (c / a) (log_mu a c) <> N_border) ->
+  (mvhi = false -> near (qpow b (floor_log b emax)) emax (c / a) (log_mu a c) <> N_border) ->
   let e' := log_exps b a c in
   ((0 < a)%Q /\ (a <= emin)%Q /\ (emax <= c)%Q) /\
   (f * 2 ^ l <= le_out_lo e' <= le_out_lo e /\ le_out_hi e <= le_out_hi e' <= la * 2 ^ l) /\
   log_nice b emin emax o = (a, c) /\ log_nice b a c o = (a, c).
 Proof.
-  intros Hb P Lt e Hlh H0 Hmax Hl f la Hcnt nmn nmx Elo Ehi Ea Ec Ilo Ihi Amb e'.
+  intros Hb P Lt e Hlh H0 Hmax Hl f la Hcnt nmn nmx Elo Ehi Ea Ec Ilo Ihi Blo Bhi e'.
   pose proof (level_nonneg e o l Hlh H0 Hmax Hl) as Ln. pose proof (pow2_pos l Ln) as K.
   destruct (f_la e o l Hlh H0 Hmax Hl) as (Ef & Ela & Flt). fold f la in Ef, Ela, Flt.
   assert (Fk : f * 2 ^ l <= le_out_lo e) by (apply fdiv_iff; [exact K | lia]).
@@ -257,12 +261,12 @@ Proof.
   assert (Hlo' : f * 2 ^ l <= le_out_lo e' <= le_out_lo e).
   { unfold e'. destruct mvlo; subst a.
     - unfold nmn. rewrite out_lo_pow by exact Hb. lia.
-    - specialize (Ilo eq_refl). pose proof (out_lo_keep b emin emax c Hb P Lt Cc Ilo Amb) as N3.
+    - specialize (Ilo eq_refl). pose proof (out_lo_keep b emin emax c Hb P Lt Cc Ilo (Blo eq_refl)) as N3.
       rewrite log_exps_out_lo, N3. unfold e in Fk |- *. rewrite log_exps_out_lo, Ilo in Fk |- *. cbn [isin3] in *. lia. }
   assert (Hhi' : le_out_hi e <= le_out_hi e' <= la * 2 ^ l).
   { unfold e'. destruct mvhi; subst c.
     - unfold nmx. rewrite out_hi_pow by exact Hb. lia.
-    - specialize (Ihi eq_refl). pose proof (out_hi_keep b emin emax a Hb Pa La Lt Ihi Amb) as N4.
+    - specialize (Ihi eq_refl). pose proof (out_hi_keep b emin emax a Hb Pa La Lt Ihi (Bhi eq_refl)) as N4.
       rewrite log_exps_out_hi, N4. unfold e in Lk |- *. rewrite log_exps_out_hi, Ihi in Lk |- *. cbn [isin3] in *. lia. }
   assert (H0' : log_count e' true 0 <= MAXINT).
   { unfold log_count, log_first_last. cbn [Z.ltb Z.compare]. change (2 ^ 0) with 1.
@@ -382,15 +386,16 @@ Lemma log_ticks_core b emin emax o l (mvlo mvhi : bool) a c major minor : 2 <= b
   a = (if mvlo then nmn else emin) -> c = (if mvhi then nmx else emax) ->
   (mvlo = false -> near emin (qpow b (ceil_log b emin)) (emax / emin) (log_mu emin emax) = N_inside) ->
   (mvhi = false -> near (qpow b (floor_log b emax)) emax (emax / emin) (log_mu emin emax) = N_inside) ->
-  le_amb (log_exps b a c) = false ->
+  (mvlo = false -> near emin (qpow b (ceil_log b emin)) (c / a) (log_mu a c) <> N_border) ->
+  (mvhi = false -> near (qpow b (floor_log b emax)) emax (c / a) (log_mu a c) <> N_border) ->
   (mvlo = false -> Qleb nmn emin = false) -> (mvhi = false -> Qleb emax nmx = false) ->
   log_ticks b a c o = TR_ticks major minor ->
   (exists rest, major = nmn :: rest) /\ (forall d, last major d = nmx) /\
   (mvlo = false -> near a nmn (c / a) (log_mu a c) = N_inside) /\
   (mvhi = false -> near nmx c (c / a) (log_mu a c) = N_inside).
 Proof.
-  intros Hb P Lt e Hlh H0 Hmax Hl f la Hcnt nmn nmx Elo Ehi Ea Ec Ilo Ihi Amb Slo Shi HT.
-  destruct (log_nice_core b emin emax o l mvlo mvhi a c Hb P Lt Hlh H0 Hmax Hl Hcnt Elo Ehi Ea Ec Ilo Ihi Amb)
+  intros Hb P Lt e Hlh H0 Hmax Hl f la Hcnt nmn nmx Elo Ehi Ea Ec Ilo Ihi Blo Bhi Slo Shi HT.
+  destruct (log_nice_core b emin emax o l mvlo mvhi a c Hb P Lt Hlh H0 Hmax Hl Hcnt Elo Ehi Ea Ec Ilo Ihi Blo Bhi)
     as ((Pa & La & Cc) & _ & _ & _).
   pose proof (level_nonneg e o l Hlh H0 Hmax Hl) as Ln. pose proof (pow2_pos l Ln) as K.
   destruct (f_la e o l Hlh H0 Hmax Hl) as (Ef & Ela & Flt). fold f la in Ef, Ela, Flt.
@@ -405,7 +410,7 @@ Proof.
   { destruct mvlo; subst a.
     - split; [unfold nmn; apply in_lo_pow; exact Hb | discriminate].
     - specialize (Ilo eq_refl). specialize (Slo eq_refl). gb_bool.
-      pose proof (out_lo_keep b emin emax c Hb P Lt Cc Ilo Amb) as N3.
+      pose proof (out_lo_keep b emin emax c Hb P Lt Cc Ilo (Blo eq_refl)) as N3.
       assert (Oe : le_out_lo e = ceil_log b emin) by (unfold e; rewrite log_exps_out_lo, Ilo; reflexivity).
       assert (Fc : f * 2 ^ l = ceil_log b emin).
       { destruct (Z.eq_dec (f * 2 ^ l) (ceil_log b emin)) as [Q1|Q1]; [exact Q1|]. exfalso.
@@ -418,7 +423,7 @@ Proof.
   { destruct mvhi; subst c.
     - split; [unfold nmx; apply in_hi_pow; exact Hb | discriminate].
     - specialize (Ihi eq_refl). specialize (Shi eq_refl). gb_bool.
-      pose proof (out_hi_keep b emin emax a Hb Pa La Lt Ihi Amb) as N4.
+      pose proof (out_hi_keep b emin emax a Hb Pa La Lt Ihi (Bhi eq_refl)) as N4.
       assert (Oe : le_out_hi e = floor_log b emax) by (unfold e; rewrite log_exps_out_hi, Ihi; reflexivity).
       assert (Lc : la * 2 ^ l = floor_log b emax).
       { destruct (Z.eq_dec (la * 2 ^ l) (floor_log b emax)) as [Q1|Q1]; [exact Q1|]. exfalso.
@@ -434,12 +439,18 @@ Qed.
 
 (* LOG NICE IS IDEMPOTENT AND ITS ENDS ARE THE FIRST / LAST MAJOR TICK, ALSO WITH AN END LEFT IN PLACE:
    for a positive domain emin < emax whose Nice found level l and the candidates nmn = b^(f 2^l),
-   nmx = b^(la 2^l): if every end that Nice left in place was within the slack of the power next to it
-   (decision N_inside), and no slack decision of the niced domain [a, c] is undecided, then the second
-   Nice returns [a, c]; if moreover the candidate of an unmoved end lies strictly outside the domain
-   (the end is just inside the power: the D10 situation), Ticks on [a, c] starts at nmn and ends at
-   nmx - which is the end itself for an end that moved and the power the end is within the slack of
-   (N_inside for the niced domain) for an end left in place. *)
+   nmx = b^(la 2^l), let mvlo / mvhi say whether Nice moved the lower / upper end (log.go:233, 236)
+   and [a, c] be the niced domain.  If every end that Nice left in place was within the slack of the
+   power next to it (its rounding-out decision was N_inside), and that decision, re-taken for the
+   niced domain (other ratio t, other mu), is not undecided (N_border) - implied by
+   le_amb (log_exps b a c) = false -, then
+     * the second Nice returns [a, c] again;
+     * if moreover the candidate of an unmoved end lies strictly outside the domain (the end is just
+       inside the power: the D10 situation), Ticks on [a, c] starts at nmn and ends at nmx, which is
+       the end itself for an end that moved and the power the end is within the slack of (N_inside
+       for the niced domain) for an end left in place.
+   Nothing is assumed about an end that moved; with both ends moved this is
+   log_nice_fixed_on_landed_ends / log_ticks_on_landed_ends. *)
 Theorem log_nice_idempotent_with_unmoved_end b emin emax o l : 2 <= b -> (0 < emin)%Q -> (emin < emax)%Q ->
   let e := log_exps b emin emax in
   le_out_lo e < le_out_hi e -> log_count e true 0 <= MAXINT -> o_max o < MAXINT ->
@@ -450,26 +461,35 @@ Theorem log_nice_idempotent_with_unmoved_end b emin emax o l : 2 <= b -> (0 < em
   let mvlo := log_end_ok b (2 ^ l) f nmn && Qleb nmn emin in
   let mvhi := log_end_ok b (2 ^ l) la nmx && Qleb emax nmx in
   let a := if mvlo then nmn else emin in let c := if mvhi then nmx else emax in
-  (mvlo = false -> near emin (qpow b (ceil_log b emin)) (emax / emin) (log_mu emin emax) = N_inside) ->
-  (mvhi = false -> near (qpow b (floor_log b emax)) emax (emax / emin) (log_mu emin emax) = N_inside) ->
-  le_amb (log_exps b a c) = false ->
-  log_nice b emin emax o = (a, c) /\ log_nice b a c o = (a, c) /\
-  ((mvlo = false -> Qleb nmn emin = false) -> (mvhi = false -> Qleb emax nmx = false) ->
-   forall major minor, log_ticks b a c o = TR_ticks major minor ->
-   (exists rest, major = nmn :: rest) /\ (forall d, last major d = nmx) /\
-   (mvlo = true -> a = nmn) /\ (mvhi = true -> c = nmx) /\
-   (mvlo = false -> a = emin /\ near a nmn (c / a) (log_mu a c) = N_inside) /\
-   (mvhi = false -> c = emax /\ near nmx c (c / a) (log_mu a c) = N_inside)).
+  (* the re-taken decisions of the unmoved ends are decided *)
+  let decided :=
+    (mvlo = false -> near emin (qpow b (ceil_log b emin)) (c / a) (log_mu a c) <> N_border) /\
+    (mvhi = false -> near (qpow b (floor_log b emax)) emax (c / a) (log_mu a c) <> N_border) in
+  (le_amb (log_exps b a c) = false -> decided) /\
+  ((mvlo = false -> near emin (qpow b (ceil_log b emin)) (emax / emin) (log_mu emin emax) = N_inside) ->
+   (mvhi = false -> near (qpow b (floor_log b emax)) emax (emax / emin) (log_mu emin emax) = N_inside) ->
+   decided ->
+   log_nice b emin emax o = (a, c) /\ log_nice b a c o = (a, c) /\
+   ((mvlo = false -> Qleb nmn emin = false) -> (mvhi = false -> Qleb emax nmx = false) ->
+    forall major minor, log_ticks b a c o = TR_ticks major minor ->
+    (exists rest, major = nmn :: rest) /\ (forall d, last major d = nmx) /\
+    (mvlo = true -> a = nmn) /\ (mvhi = true -> c = nmx) /\
+    (mvlo = false -> a = emin /\ near a nmn (c / a) (log_mu a c) = N_inside) /\
+    (mvhi = false -> c = emax /\ near nmx c (c / a) (log_mu a c) = N_inside))).
 Proof.
-  intros Hb P Lt e Hlh H0 Hmax Hl f la Hcnt nmn nmx mvlo mvhi a c Ilo Ihi Amb.
-  destruct (log_nice_core b emin emax o l mvlo mvhi a c Hb P Lt Hlh H0 Hmax Hl Hcnt eq_refl eq_refl eq_refl eq_refl Ilo Ihi Amb)
-    as (_ & _ & N1 & N2).
-  split; [exact N1|]. split; [exact N2|]. intros Slo Shi major minor HT.
-  destruct (log_ticks_core b emin emax o l mvlo mvhi a c major minor Hb P Lt Hlh H0 Hmax Hl Hcnt eq_refl eq_refl eq_refl eq_refl
-              Ilo Ihi Amb Slo Shi HT) as (R1 & R2 & R3 & R4).
-  split; [exact R1|]. split; [exact R2|].
-  split; [intros M; unfold a; rewrite M; reflexivity|]. split; [intros M; unfold c; rewrite M; reflexivity|].
-  split; intros M.
-  - split; [unfold a; rewrite M; reflexivity | exact (R3 M)].
-  - split; [unfold c; rewrite M; reflexivity | exact (R4 M)].
+  intros Hb P Lt e Hlh H0 Hmax Hl f la Hcnt nmn nmx mvlo mvhi a c decided. split.
+  - intros Amb. destruct (log_exps_amb_false b a c Amb) as (_ & _ & N3 & N4). split.
+    + intros M. assert (Ea : a = emin) by (unfold a; rewrite M; reflexivity). rewrite Ea in N3 |- *. exact N3.
+    + intros M. assert (Ec : c = emax) by (unfold c; rewrite M; reflexivity). rewrite Ec in N4 |- *. exact N4.
+  - intros Ilo Ihi [Blo Bhi].
+    destruct (log_nice_core b emin emax o l mvlo mvhi a c Hb P Lt Hlh H0 Hmax Hl Hcnt eq_refl eq_refl eq_refl eq_refl Ilo Ihi Blo Bhi)
+      as (_ & _ & N1 & N2).
+    split; [exact N1|]. split; [exact N2|]. intros Slo Shi major minor HT.
+    destruct (log_ticks_core b emin emax o l mvlo mvhi a c major minor Hb P Lt Hlh H0 Hmax Hl Hcnt eq_refl eq_refl eq_refl eq_refl
+                Ilo Ihi Blo Bhi Slo Shi HT) as (R1 & R2 & R3 & R4).
+    split; [exact R1|]. split; [exact R2|].
+    split; [intros M; unfold a; rewrite M; reflexivity|]. split; [intros M; unfold c; rewrite M; reflexivity|].
+    split; intros M.
+    + split; [unfold a; rewrite M; reflexivity | exact (R3 M)].
+    + split; [unfold c; rewrite M; reflexivity | exact (R4 M)].
 Qed.
